@@ -1703,6 +1703,42 @@ def r187(ctx, repo):
                 cxy[s.targets[0].id] = v
     if set(cxy) != {"cx", "cy"}:
         raise AnalysisError("cont_moments_cv: centre of gravity lost")
+    # OpenCV's contourMoments: the area test uses FLT_EPSILON, the guard of
+    # the centre of gravity DBL_EPSILON (both are parameters here)
+    guards = []
+    for s_ in walk(fn):
+        if isinstance(s_, ast.Assign) and isinstance(
+                s_.targets[0], ast.Name) and s_.targets[0].id in (
+                "cx", "cy") and not isinstance(s_.value, ast.Constant):
+            g = None
+            if isinstance(s_.value, ast.IfExp):
+                g = s_.value.test
+            else:
+                par, child = s_.parent, s_
+                while par is not None and not isinstance(
+                        par, ast.FunctionDef):
+                    if isinstance(par, ast.If) and any(
+                            child is x for x in par.body) and "m00" in txt(
+                            par.test):
+                        g = par.test
+                        break
+                    child, par = par, getattr(par, "parent", None)
+            if g is not None:
+                guards.append(ast.parse(expand_locals(fn, g, depth=3),
+                                        mode="eval").body)
+    if guards:
+        eps = set().union(*[names_in(g) for g in guards]) & {
+            "flt_epsilon", "dbl_epsilon"}
+        ok = eps == {"dbl_epsilon"}
+        ctx.ob("R18.7", ok,
+               "the centre of gravity is guarded with the double-precision "
+               "epsilon (as in OpenCV)" if ok else
+               f"the guard of the centre of gravity `{txt(guards[0])}` uses "
+               f"{sorted(eps) or 'no epsilon'}: contours with an area "
+               f"between DBL_EPSILON and FLT_EPSILON get cx = cy = 0 and "
+               f"wrong central moments (OpenCV: m00 > DBL_EPSILON)",
+               node=fn, key=f"{INERT}::cont_moments_cv::centroid guard "
+               f"epsilon")
     menv = {}
 
     def mres(e):
@@ -1954,6 +1990,90 @@ def _wrapped_in(stmts, params):
     return out
 
 
+class NPScalar:
+    """numpy scalar that is not a subclass of a python number (np.float32,
+    np.int64, np.uint8, ...)"""
+    _strict_attrs = True
+
+    def __init__(self, name):
+        self.name = name
+        self.ndim = 0
+        self.shape = ()
+
+    def __repr__(self):
+        return f"np.{self.name}(…)"
+
+
+class NPFloat64(float):
+    """np.float64 is a subclass of python float"""
+
+
+def r189_scalar(ctx, repo):
+    """get_volume decides between one event and a list of events by a scalar
+    test on the centroid: every kind of scalar a dataset hands out (python
+    numbers, np.float64, but also np.float32 / integer numpy scalars) must
+    take the single-event branch, arrays and lists the other one"""
+    fn = normalised(repo, VOL, "get_volume")
+    a = fn.args
+    params = {x.arg for x in a.args + a.kwonlyargs}
+    br = [n for n in walk(fn) if isinstance(n, ast.If)
+          and "cont" in _wrapped_in(n.body, params)]
+    if not br:
+        raise AnalysisError("get_volume: single-event branch not found")
+    test = br[0].test
+    tparams = sorted(names_in(test) & params)
+    if not tparams:
+        raise AnalysisError("get_volume: the single-event test reads no "
+                            "parameter")
+    it = L.Interp(repo)
+    np_ = L.NPModel()
+    base_isscalar = np_.isscalar
+    np_.isscalar = lambda v: isinstance(v, NPScalar) or base_isscalar(v)
+    np_.ndim = lambda v: 0 if isinstance(v, (NPScalar, int, float)) else 1
+    np_.generic = L.ModelType("np.generic", lambda o: isinstance(
+        o, (NPScalar, NPFloat64)))
+    np_.number = np_.generic
+    np_.floating = L.ModelType("np.floating", lambda o: isinstance(
+        o, NPFloat64) or (isinstance(o, NPScalar) and o.name.startswith(
+            "float")))
+    np_.integer = L.ModelType("np.integer", lambda o: isinstance(
+        o, NPScalar) and "int" in o.name)
+    numbers_ = L.namespace(
+        "numbers",
+        Number=L.ModelType("numbers.Number", lambda o: isinstance(
+            o, (int, float, NPScalar)) and not isinstance(o, bool)),
+        Real=L.ModelType("numbers.Real", lambda o: isinstance(
+            o, (int, float, NPScalar)) and not isinstance(o, bool)),
+        Integral=L.ModelType("numbers.Integral", lambda o: isinstance(
+            o, int) or (isinstance(o, NPScalar) and "int" in o.name)))
+    env = it.env(VOL, {"np": np_, "numbers": numbers_})
+    cases = [("python float", 1.5, True), ("python int", 2, True),
+             ("np.float64", NPFloat64(1.5), True),
+             ("np.float32", NPScalar("float32"), True),
+             ("np.float16", NPScalar("float16"), True),
+             ("np.int64", NPScalar("int64"), True),
+             ("np.uint16", NPScalar("uint16"), True),
+             ("1-d array", L.Arr([1.5, 2.5]), False),
+             ("list", [1.5, 2.5], False)]
+    bad = None
+    for name, val, want in cases:
+        loc_ = {p_: val for p_ in params}
+        res = L.run(lambda: bool(it.truth(it.eval(test, L.Frame(env, loc_)),
+                                          test)))
+        if res != ("ok", want) and bad is None:
+            bad = (name, res, want)
+    ctx.ob("R18.9", bad is None,
+           f"`{short(test, 50)}` takes the single-event branch for every "
+           f"scalar type ({len(cases)} kinds of input)" if bad is None else
+           f"single-event test `{short(test, 50)}` gives "
+           f"{bad[1][1] if bad[1][0] == 'ok' else bad[1]} for a centroid "
+           f"given as {bad[0]} (expected {bad[2]}): the single contour is "
+           f"not wrapped, the result is nan / an error although "
+           f"{tparams[0]} is a scalar", node=br[0],
+           key=f"{VOL}::get_volume::single-event test accepts every scalar "
+           f"type")
+
+
 def r189(ctx, repo):
     n_fn = 0
     for rel in FEATURE_FILES:
@@ -2083,6 +2203,7 @@ def run(ctx):
     r187(ctx, repo)
     r188(ctx, repo)
     r189(ctx, repo)
+    r189_scalar(ctx, repo)
 
 
 MUTANTS = [
@@ -2753,4 +2874,28 @@ TWINS = list(TWINS) + [
       "                          ])",
       "                          [ct31, ct32, ct33],\n"
       "                          ], dtype=np.float64)")),
+]
+
+# seeds /verif/seeded/C18_17
+MUTANTS = list(MUTANTS) + [
+    ("volume: scalar test misses numpy scalars (seeded)", VOL,
+     ("    if np.isscalar(pos_x):", "    if isinstance(pos_x, (int, float)):"),
+     "R18.9"),
+]
+
+TWINS = list(TWINS) + [
+    ("volume: scalar test via np.ndim", VOL,
+     ("    if np.isscalar(pos_x):", "    if np.ndim(pos_x) == 0:")),
+    ("volume: scalar test via numbers.Number or np.generic", VOL,
+     [("import numpy as np\n", "import numbers\n\nimport numpy as np\n"),
+      ("    if np.isscalar(pos_x):",
+       "    if isinstance(pos_x, (numbers.Number, np.generic)):")]),
+]
+
+# seed /verif/seeded/C18_16
+MUTANTS = list(MUTANTS) + [
+    ("moments: centroid guarded with the single-precision epsilon (seeded)",
+     INERT,
+     ('        if m["m00"] > dbl_epsilon:', '        if m["m00"] > flt_epsilon:'),
+     "R18.7"),
 ]
